@@ -510,3 +510,94 @@ def percent_score(pct):
     if pct < 45:
         return 10 * ((44 - pct) // 5 + 1)
     return 10 * ((pct - 55) // 5 + 1)
+
+
+# ---------------------------------------------------------------- reference decoder on terms (C01)
+
+def decode_symbol(vals, v):
+    """ISO reference read-out of an n x n matrix of width-1 values (ints/terms) for a known version v (1-based):
+    format information -> (level index term, mask term, valid), unmasking, codeword read-out in placement order.
+    Returns dict(valid, level, mask, codewords) where level/mask are 8-bit terms and codewords 8-bit terms."""
+    g = geometry(v)
+    n = g['n']
+    fa, fb = format_positions(v)
+
+    def word(pos):
+        w = 0
+        for i, (r, c) in enumerate(pos):
+            b = vals[r][c]
+            if type(b) is int:
+                w = T.bor(16, w, b << i)
+            else:
+                w = T.bor(16, w, T.shl(16, T.zext(1, 16, b), i))
+        return w
+    f1 = word(fa)
+    f2 = word(fb)
+    valid = 0
+    level = 0
+    mask = 0
+    for li, lv in enumerate(LEVELS):
+        for m in range(8):
+            hit = T.eq(16, f1, bch_format(lv, m))
+            valid = T.lor(valid, hit)
+            level = T.ite(8, hit, li, level)
+            mask = T.ite(8, hit, m, mask)
+    copies_agree = T.eq(16, f1, f2)
+    bits = []
+    for (r, c) in g['order']:
+        mb = mask_bit_t(mask, r, c)
+        bits.append(T.bxor(1, vals[r][c], mb))
+    total = len(bits) // 8
+    cws = pack_bytes(bits[:total * 8])
+    return {'valid': valid, 'copies_agree': copies_agree, 'level': level, 'mask': mask, 'codewords': cws,
+            'remainder': bits[total * 8:]}
+
+
+def parse_segment(data_cw, v, mode, n_chars):
+    """bits of the data codewords -> (mode indicator term, count term, list of character terms (8-bit), following 4 bits)"""
+    bits = []
+    for b in data_cw:
+        bits += _bits_of(b, 8, 8)
+
+    def num(lo, k, w=16):
+        val = 0
+        for i in range(k):
+            x = bits[lo + i]
+            sh = k - 1 - i
+            if type(x) is int:
+                val = T.bor(w, val, x << sh)
+            else:
+                val = T.bor(w, val, T.shl(w, T.zext(1, w, x), sh))
+        return val
+    ind = num(0, 4)
+    cb = cci_bits(v, mode)
+    count = num(4, cb)
+    pos = 4 + cb
+    groups = []
+    if mode == 'byte':
+        for i in range(n_chars):
+            groups.append(('byte', num(pos, 8)))
+            pos += 8
+    elif mode == 'numeric':
+        i = 0
+        while i + 3 <= n_chars:
+            groups.append(('d3', num(pos, 10)))
+            pos += 10
+            i += 3
+        if n_chars - i == 2:
+            groups.append(('d2', num(pos, 7)))
+            pos += 7
+        elif n_chars - i == 1:
+            groups.append(('d1', num(pos, 4)))
+            pos += 4
+    else:
+        i = 0
+        while i + 2 <= n_chars:
+            groups.append(('a2', num(pos, 11)))
+            pos += 11
+            i += 2
+        if n_chars - i == 1:
+            groups.append(('a1', num(pos, 6)))
+            pos += 6
+    after = bits[pos:pos + 4]
+    return ind, count, groups, after, pos
